@@ -173,9 +173,16 @@ func runRotate(c *ctx) error {
 			}
 			r.fill(10)
 		}
+		// reports do not arrive in timeslot order: a device resends an older slot late, across the week boundary
+		r.report(1, 2017, 61)
+		r.report(1, 2020, 62)
+		r.report(1, 2010, 63)
+		r.report(1, 2025, 64)
 		r.report(1, 2015, 31)
 		r.report(1, 2016, 32)
 		r.report(2, 2015, 33)
+		r.report(1, 2030, 65)
+		r.report(1, 2012, 66)
 		ban(3) // banned before the week is archived
 		r.queries(false)
 		if err := r.tick(3200); err != nil { // exactly the trigger: no rotation
@@ -264,6 +271,34 @@ func runRotate(c *ctx) error {
 				return err
 			}
 			r.queries(false)
+		}
+	}
+	// late arrivals: on fresh servers, reports reach the file out of timeslot order across the week boundary; then
+	// the window rotates and the server restarts before the new first week is archived (files of several sizes)
+	if c.part("directed") {
+		s.WithDisk = true
+		orders := [][]uint32{{2017, 2020, 2010, 2025}, {2030, 2011, 2040, 2012, 2050}, {2016, 2015, 2017, 2014, 2018, 2013},
+			{2100, 2000, 2101, 2001, 2102, 2002, 2103}, {2020, 2021, 2022, 1990, 1991, 1992, 1993, 1994, 2023}}
+		for i, ord := range orders {
+			if err := begin(fmt.Sprintf("rotate/latearrival/%d", i), 2400, 1); err != nil {
+				return err
+			}
+			for k, ts := range ord {
+				r.report(1, ts, uint64(400+10*k))
+			}
+			if err := r.tick(3201 + uint32(i)); err != nil {
+				return err
+			}
+			r.QueryStats("2016", 2016, false)
+			if err := r.restart(r.Now()); err != nil {
+				return err
+			}
+			r.QueryStats("2016", 2016, false)
+			r.QueryStats("0", 0, false)
+			if err := r.tick(2016 + 3201 + uint32(i)); err != nil {
+				return err
+			}
+			r.QueryStats("2016", 2016, false)
 		}
 	}
 	// dense week: the parameter negates about 2% of the eligible slots of the
